@@ -48,6 +48,8 @@ def reachable_only(c):
     c["modules"] = {k: v for k, v in c["modules"].items() if k in seen}
     used = set(v[0] for m in c["modules"].values() for v in m["insts"].values())
     c["primitives"] = {k: v for k, v in c["primitives"].items() if k in used}
+    for m in c["modules"].values():
+        m["timescale"] = None     # not among the things the statement lists (the writer has no `timescale)
     return c
 
 
@@ -65,8 +67,8 @@ def worker(case):
         tag = "bundled:%s" % src
     else:
         if src[0] == "base":
-            text = vw.render(c06.base_vad(), order=list(src[1]), style=src[2])
-            tag = "base"
+            text = vw.render(c06.base_vad(), order=list(src[1]), style=src[2], alt=len(src) > 3 and src[3])
+            tag = "base-alt" if len(src) > 3 and src[3] else "base"
         elif src[0] == "chain":
             text = vw.render(c06.chain_vad(len(src[1])), order=list(src[1]))
             tag = "chain"
@@ -125,6 +127,7 @@ def cases(tier):
     for order in itertools.permutations(range(3)):
         for style in ("header", "ansi"):
             srcs.append(("base", list(order), style))
+            srcs.append(("base", list(order), style, True))   # net types, defparam, `timescale in the source
     for depth in (3, 4):
         for order in itertools.permutations(range(depth)):
             srcs.append(("chain", list(order)))
